@@ -242,4 +242,35 @@ namespace BVM
 @[simp] theorem St.setSer_p (s : St) (b : Buf) (a : Nat) (sv : List (String × Nat)) (evs : List Ev) : (s.setSer b a sv evs).p = s.p := rfl
 @[simp] theorem St.setSer_halted (s : St) (b : Buf) (a : Nat) (sv : List (String × Nat)) (evs : List Ev) : (s.setSer b a sv evs).halted = s.halted := rfl
 
+@[simp] theorem St.bumpOpen_c_packetSize (s : St) : s.bumpOpen.c.packetSize = s.c.packetSize := rfl
+@[simp] theorem St.bumpOpen_c_contentSize (s : St) : s.bumpOpen.c.contentSize = s.c.contentSize := rfl
+@[simp] theorem St.bumpOpen_c_at_ (s : St) : s.bumpOpen.c.at_ = s.c.at_ := rfl
+@[simp] theorem St.bumpOpen_c_offContent (s : St) : s.bumpOpen.c.offContent = s.c.offContent := rfl
+@[simp] theorem St.bumpOpen_c_eventsDiscarded (s : St) : s.bumpOpen.c.eventsDiscarded = s.c.eventsDiscarded := rfl
+@[simp] theorem St.bumpOpen_c_sequenceNumber (s : St) : s.bumpOpen.c.sequenceNumber = s.c.sequenceNumber := rfl
+@[simp] theorem St.bumpOpen_c_packetIsOpen (s : St) : s.bumpOpen.c.packetIsOpen = s.c.packetIsOpen := rfl
+@[simp] theorem St.bumpOpen_c_inTracingSection (s : St) : s.bumpOpen.c.inTracingSection = s.c.inTracingSection := rfl
+@[simp] theorem St.bumpOpen_c_isTracingEnabled (s : St) : s.bumpOpen.c.isTracingEnabled = s.c.isTracingEnabled := rfl
+@[simp] theorem St.bumpOpen_c_useCurLastEventTs (s : St) : s.bumpOpen.c.useCurLastEventTs = s.c.useCurLastEventTs := rfl
+@[simp] theorem St.bumpOpen_c_curLastEventTs (s : St) : s.bumpOpen.c.curLastEventTs = s.c.curLastEventTs := rfl
+@[simp] theorem St.bumpOpen_c_saved (s : St) : s.bumpOpen.c.saved = s.c.saved := rfl
+@[simp] theorem St.bumpOpen_buf (s : St) : s.bumpOpen.buf = s.buf := rfl
+@[simp] theorem St.bumpOpen_log (s : St) : s.bumpOpen.log = s.log := rfl
+@[simp] theorem St.bumpOpen_halted (s : St) : s.bumpOpen.halted = s.halted := rfl
+@[simp] theorem St.bumpClose_c_packetSize (s : St) : s.bumpClose.c.packetSize = s.c.packetSize := rfl
+@[simp] theorem St.bumpClose_c_contentSize (s : St) : s.bumpClose.c.contentSize = s.c.contentSize := rfl
+@[simp] theorem St.bumpClose_c_at_ (s : St) : s.bumpClose.c.at_ = s.c.at_ := rfl
+@[simp] theorem St.bumpClose_c_offContent (s : St) : s.bumpClose.c.offContent = s.c.offContent := rfl
+@[simp] theorem St.bumpClose_c_eventsDiscarded (s : St) : s.bumpClose.c.eventsDiscarded = s.c.eventsDiscarded := rfl
+@[simp] theorem St.bumpClose_c_sequenceNumber (s : St) : s.bumpClose.c.sequenceNumber = s.c.sequenceNumber := rfl
+@[simp] theorem St.bumpClose_c_packetIsOpen (s : St) : s.bumpClose.c.packetIsOpen = s.c.packetIsOpen := rfl
+@[simp] theorem St.bumpClose_c_inTracingSection (s : St) : s.bumpClose.c.inTracingSection = s.c.inTracingSection := rfl
+@[simp] theorem St.bumpClose_c_isTracingEnabled (s : St) : s.bumpClose.c.isTracingEnabled = s.c.isTracingEnabled := rfl
+@[simp] theorem St.bumpClose_c_useCurLastEventTs (s : St) : s.bumpClose.c.useCurLastEventTs = s.c.useCurLastEventTs := rfl
+@[simp] theorem St.bumpClose_c_curLastEventTs (s : St) : s.bumpClose.c.curLastEventTs = s.c.curLastEventTs := rfl
+@[simp] theorem St.bumpClose_c_saved (s : St) : s.bumpClose.c.saved = s.c.saved := rfl
+@[simp] theorem St.bumpClose_buf (s : St) : s.bumpClose.buf = s.buf := rfl
+@[simp] theorem St.bumpClose_log (s : St) : s.bumpClose.log = s.log := rfl
+@[simp] theorem St.bumpClose_halted (s : St) : s.bumpClose.halted = s.halted := rfl
+
 end BVM
